@@ -5,7 +5,15 @@
 set -e
 HERE="$(cd "$(dirname "$0")" && pwd)"
 V="$HERE/.venv312"
+build_shim() {
+    # optional: arena cache for CPython's data-stack chunks (see native/arena_shim.c); the checks run without it too
+    INC="$("$V/bin/python" -c 'import sysconfig; print(sysconfig.get_paths()["include"])' 2>/dev/null)"
+    if [ -n "$INC" ] && [ ! -f "$V/arena_shim.so" -o "$HERE/native/arena_shim.c" -nt "$V/arena_shim.so" ]; then
+        cc -O2 -shared -fPIC -I"$INC" "$HERE/native/arena_shim.c" -o "$V/arena_shim.so" 2>/dev/null || true
+    fi
+}
 if [ -x "$V/bin/python" ] && "$V/bin/python" -c "import z3, jsonschema, miasm" 2>/dev/null; then
+    build_shim
     exit 0
 fi
 rm -rf "$V"
@@ -13,4 +21,5 @@ rm -rf "$V"
 PIP_NO_INDEX=1 "$V/bin/python" -m pip install -q --no-index --find-links /opt/veriftools/wheels z3-solver cvc5 jsonschema >/dev/null
 SP="$("$V/bin/python" -c 'import sysconfig; print(sysconfig.get_paths()["purelib"])')"
 echo "import site; site.addsitedir('/venv/lib/python3.12/site-packages')" > "$SP/zz_miasm_overlay.pth"
+build_shim
 "$V/bin/python" -c "import z3, jsonschema, miasm; print('overlay venv ok', z3.get_version_string())"
